@@ -216,6 +216,24 @@ fn gen_plan(rng: &mut Prng, forced: Option<(u64, u64)>) -> (ClockSpec, u64) {
                 measured[i] = 0u64.wrapping_sub(rng.range(1, 3_000_000));
             }
         }
+        "backwards" if rng.chance(1, 3) => {
+            // most or all of the probes step back (a counter that counts down, a reversed subtraction in the
+            // timer callback): exactly k distinct ones, k around 2^8, near 300, or anywhere
+            let k = match rng.below(4) {
+                0 => rng.range(250, 262),
+                1 => rng.range(294, 300),
+                2 => rng.range(120, 135),
+                _ => rng.range(4, 300),
+            } as usize;
+            let mut idx: Vec<usize> = (0..300).collect();
+            for j in 0..300 {
+                let o = rng.range(j as u64, 299) as usize;
+                idx.swap(j, o);
+            }
+            for i in &idx[..k] {
+                measured[*i] = 0u64.wrapping_sub(rng.range(30, 100_000));
+            }
+        }
         "backwards" => {
             let k = rng.range(2, 5) as usize; // around the limit of 3
             for _ in 0..k {
@@ -356,6 +374,11 @@ fn gen_plan(rng: &mut Prng, forced: Option<(u64, u64)>) -> (ClockSpec, u64) {
         let rate = rng.range(1, 40) as u32;
         let (c, _) = gen_clock(rng, &ClockCfg { n: TT_READS, faults, rate_per_1000: rate, max_stretch: 8 , long_stuck: false});
         readings = c.readings;
+    }
+    if forced.is_none() && rng.chance(1, 8) {
+        // one reading of the script is a special VALUE (all ones, a sign boundary, ...): the script is
+        // shifted as a whole, every delta and every literal zero stays what the class made it
+        crate::clockgen::pin_special(rng, &mut readings, TT_READS);
     }
     (ClockSpec { readings, tail_key: rng.u64(), fork_skews: vec![], freeze: None }, class)
 }
@@ -622,7 +645,7 @@ impl Scenario for C13 {
     }
 
     fn rule(&self) -> String {
-        "Each run: one clock script for the 1 + 4*400 readings of test_timer, generated per target class: healthy with a drawn mean delta variation (0..40; table means 0..17; 2^k-1, 2^k, 2^k+1 up to 2^31), delta_sum placed exactly on k*300-1 / k*300 / k*300+1 (k = 1, 2, 3..70), total variation 0..700, a literal zero reading at a drawn probe (first/second reading, warm-up or measured), a zero 32-bit-truncated delta (equal readings or a multiple of 2^32), 2..5 non-increasing probes, 268..273 deltas that are multiples of 100, 265..275 stuck probes, mixtures (deltas near +-2^31, 2^32 multiples), staircases (first differences of the deltas follow a short periodic pattern over {0, +-s, +-2s}), and generic hostile scripts from the clock-fault catalogue. In one run out of five the generator is not fresh when test_timer is called: it has produced 1..3 outputs first (the readings they consume are located with the reference model), or test_timer is called a second time on the same object, the second script starting its measured window with the last probe delta D of the first (270 truly stuck probes: must be Ok) or with D, 2D and a constant stretch (271 truly stuck probes: must be Err) - the verdict must be a function of the 400 probes alone. The oracle recomputes the six documented failure predicates from the readings actually consumed. Ok(r) is accepted iff no predicate holds on the 400 probes, all 1601 readings were consumed, 1 <= r <= 128, r*bitlen(mean) >= 128 and set_rounds(r) does not panic; Err(e) iff the predicate named by e holds on the consumed prefix. No precedence among simultaneously true conditions and no exact r is demanded. distinct_nontrivial = distinct (target class, result variant, bitlen(mean), r) signatures. Modifiers: clock steps back (or stands still) BETWEEN probes; near-constant timers plus one to three tolerated steps back.".into()
+        "Each run: one clock script for the 1 + 4*400 readings of test_timer, generated per target class: healthy with a drawn mean delta variation (0..40; table means 0..17; 2^k-1, 2^k, 2^k+1 up to 2^31), delta_sum placed exactly on k*300-1 / k*300 / k*300+1 (k = 1, 2, 3..70), total variation 0..700, a literal zero reading at a drawn probe (first/second reading, warm-up or measured), a zero 32-bit-truncated delta (equal readings or a multiple of 2^32), 2..5 non-increasing probes (one time in three 4..300 distinct ones, concentrated around 128, 256 and 300), 268..273 deltas that are multiples of 100, 265..275 stuck probes, mixtures (deltas near +-2^31, 2^32 multiples), staircases (first differences of the deltas follow a short periodic pattern over {0, +-s, +-2s}), and generic hostile scripts from the clock-fault catalogue. In one run out of five the generator is not fresh when test_timer is called: it has produced 1..3 outputs first (the readings they consume are located with the reference model), or test_timer is called a second time on the same object, the second script starting its measured window with the last probe delta D of the first (270 truly stuck probes: must be Ok) or with D, 2D and a constant stretch (271 truly stuck probes: must be Err) - the verdict must be a function of the 400 probes alone. The oracle recomputes the six documented failure predicates from the readings actually consumed. Ok(r) is accepted iff no predicate holds on the 400 probes, all 1601 readings were consumed, 1 <= r <= 128, r*bitlen(mean) >= 128 and set_rounds(r) does not panic; Err(e) iff the predicate named by e holds on the consumed prefix. No precedence among simultaneously true conditions and no exact r is demanded. distinct_nontrivial = distinct (target class, result variant, bitlen(mean), r) signatures. Modifiers: one reading pinned to a special value (all ones, sign boundaries, powers of two) by shifting the whole script; clock steps back (or stands still) BETWEEN probes; near-constant timers plus one to three tolerated steps back.".into()
     }
     fn assumptions(&self) -> Vec<String> {
         vec![
